@@ -17,7 +17,7 @@ DEFAULT = dict(
 NUMBERS = ["0", "1", "2", "3", "0.5", "1.5", "-1", "-2", "0.25", "10", "5", "-0.5"]
 VALUES = [Fraction(x) for x in ["0", "1", "2", "3", "-1", "-2", "5", "10"]] + \
          [Fraction(1, 2), Fraction(3, 2), Fraction(1, 4), Fraction(-1, 2), Fraction(7, 2)]
-PARAMS = ["?x", "?y", "?v"]
+PARAMS = ["?x", "?y", "?v", "?u", "?q", "?r"]
 QVARS = ["?z", "?w"]
 
 
@@ -175,6 +175,21 @@ class FGen:
         if ft is None:
             return None
         op = ch.choice(["<", "<=", ">", ">=", "="])
+        if simple and self.ft.get("nested_monomials") and ch.flag(0.12):
+            # an equality of the shape the printer eliminates with: (= (+ A B) 0 | C | number)
+            b = None
+            for _ in range(4):
+                b = self.fterm(scope)
+                if b is not None and b != ft:
+                    break
+                b = None
+            if b is not None:
+                r = ch.choice(["0", "0", "1", "2.5"])
+                if ch.flag(0.3):
+                    c3 = self.fterm(scope)
+                    if c3 is not None and c3 not in (ft, b):
+                        r = c3
+                return ["=", ["+", ft, b], r]
         if simple and self.ft.get("nested_monomials") and ch.flag(0.3):
             # simplifier-stable beyond (cmp fluent number): a fluent times one or two constants whose product has
             # <= 2 decimals (0.29 * 100 is 28.999999999999996 in floats), compared with another fluent (monomial)
@@ -373,6 +388,10 @@ class FGen:
             f = self.forall_eff(scope)
             if f:
                 items.append(f)
+                if ch.flag(0.3):
+                    f2 = self.forall_eff(scope)       # a second quantified effect, usually over another type
+                    if f2:
+                        items.append(f2)
         items = ch.shuffle(items) if len(items) > 1 else items
         return ["and"] + items
 
@@ -386,10 +405,12 @@ def gen_action(ch, dom, ft, name="act"):
     elif ft.get("agent_first"):
         params.append(["?ag", "agent"])
         n = max(0, n - 1)
+    # 1 action in 10 names its parameters like the variables of the predicate / function declarations (?a0 ?a1 ...)
+    pnames = ["?a0", "?a1", "?a2", "?a3", "?a4", "?a5"] if ch.flag(ft.get("p_decl_names", 0.1)) else PARAMS
     for i in range(n):
         # the root type is a legitimate parameter type of a typed domain too
         t = "object" if (not dom["typed"] or ch.flag(0.12)) else ch.choice(tnames)
-        params.append([PARAMS[i], t])
+        params.append([pnames[i], t])
     g = FGen(ch, dom, ft)
     scope = [(p, t) for p, t in params]
     return {"name": name, "params": params, "pre": g.pre(scope), "eff": g.eff(scope),
